@@ -96,7 +96,7 @@ type ContractSet struct {
 	Decls     effectDecls // fnfield / actorchan / guarded declarations (effects.go)
 }
 
-var clauseKW = regexp.MustCompile(`^(func|interface|extern|lemma|spec|ghost|globalfact|fnfield|actorchan|guarded|requires|ensures|assigns|modifies|loop|tags|overflow|abstract|fnparam|pure|trusted|returns|waive|call|ghostentry|ghostexit)\b`)
+var clauseKW = regexp.MustCompile(`^(func|interface|extern|lemma|spec|ghost|globalfact|fnfield|actorchan|guarded|propagate|requires|ensures|assigns|modifies|loop|tags|overflow|abstract|fnparam|pure|trusted|returns|waive|call|ghostentry|ghostexit)\b`)
 var headRe = regexp.MustCompile(`^(func|interface|extern)\s+(\([^)]*\)\.)?([A-Za-z0-9_.$/\-]+)\s*\(([^)]*)\)\s*(.*)$`)
 var lemmaRe = regexp.MustCompile(`^lemma(\[[^\]]*\])?\s+([A-Za-z0-9_.$]+)\s*\(([^)]*)\)\s*$`)
 var specRe = regexp.MustCompile(`^spec\s+([A-Za-z0-9_$]+)\s*\(([^)]*)\)\s*=\s*(.*)$`)
@@ -223,12 +223,29 @@ func (cs *ContractSet) LoadFile(path, pkg string) error {
 			if rest := strings.TrimSpace(m[5]); rest != "" {
 				return errf("trailing text after header: %s", rest)
 			}
-			if _, dup := cs.Contracts[c.Name]; dup {
+			if prev, dup := cs.Contracts[c.Name]; dup {
 				if c.Kind == "func" {
-					return errf("duplicate contract %s", c.Name)
+					// w-c18: a function may be given clauses by several contract files (one per property);
+					// the headers must bind the same parameter names, the clauses are merged
+					// a header `func f(*)` binds no parameter names (clauses cannot mention parameters): it merges
+					// with any other header of the same function
+					star := func(ps []string) bool { return len(ps) == 1 && ps[0] == "*" }
+					if prev.Kind == "func" && star(prev.Params) && !star(c.Params) {
+						prev.Params, prev.Recv = c.Params, c.Recv
+					} else if prev.Kind != "func" || (!star(c.Params) && strings.Join(prev.Params, ",") != strings.Join(c.Params, ",")) {
+						return errf("duplicate contract %s with different parameter names", c.Name)
+					}
+					cur = prev
+					continue
 				}
-				// assumed contracts (extern/interface) may be stated by several spec files: the first one wins,
+				// assumed contracts (extern/interface) may be stated by several spec files. Identical headers
+				// (same parameter names): the clauses are merged (w-c18: e.g. `requires[C18] auth` added to a
+				// dependency function another property already describes). Otherwise the first one wins,
 				// later ones are parsed but ignored
+				if prev.Kind == c.Kind && strings.Join(prev.Params, ",") == strings.Join(c.Params, ",") {
+					cur = prev
+					continue
+				}
 				cs.Shadowed = append(cs.Shadowed, fmt.Sprintf("%s:%d %s", rc.file, rc.line, c.Name))
 				cur = c
 				continue
@@ -288,12 +305,17 @@ func (cs *ContractSet) LoadFile(path, pkg string) error {
 				return errf("%v", err)
 			}
 			cur = nil
+		case strings.HasPrefix(t, "propagate "): // authflow.go (w-c18)
+			if err := parsePropagate(t); err != nil {
+				return errf("%v", err)
+			}
+			cur = nil
 		case strings.HasPrefix(t, "ghost "):
 			kv := strings.SplitN(strings.TrimSpace(t[6:]), ":", 2)
 			if len(kv) != 2 {
 				return errf("bad ghost: %s", t)
 			}
-			cs.Ghosts = append(cs.Ghosts, GhostVar{strings.TrimSpace(kv[0]), strings.TrimSpace(kv[1])})
+			cs.Ghosts = append(cs.Ghosts, newGhostVar(kv[0], kv[1])) // logghost.go (w-c09): `ghost log name: sort`
 			cur = nil
 		default:
 			if cur == nil {
